@@ -22,10 +22,10 @@ def jobs(tier):
     J = [recv_job(core, "recv_mem_L%d" % L, None, L, True),
          recv_job(core, "recv_mem_asserts_L%d" % L, None, L, True, ndebug=False)]
     for nm, entry in (("recv_all", "harness_recv"), ("send_all", "harness_send")):
-        J.append(core.Job(name="transport_" + nm, harness="transport_all.c", entry=entry, defines=["TLEN=%d" % (12 if tier == "quick" else 20)],
+        J.append(core.Job(name="transport_" + nm, harness="transport_all.c", entry=entry, defines=["TLEN=%d" % (12 if tier == "quick" else 14)],
                           unwind=26, timeout=900, memory_checks=True, object_bits=9, flags_meta=["unwind-is-violation"],
                           desc="real %s over a transport with arbitrary chunk sizes 1..remaining and faults at any call" % nm,
-                          bounds={"length": "0..%d bytes" % (12 if tier == "quick" else 20)},
+                          bounds={"length": "0..%d bytes" % (12 if tier == "quick" else 14)},
                           stubs=["recv/send callbacks: arbitrary chunking and faults", "clock: arbitrary"]))
     for ndebug, v6 in ((True, False), (False, False), (True, True), (False, True)):
         if tier == "quick" and v6:
